@@ -15,7 +15,39 @@ MANIFEST = {
 }
 
 
-def experiment(res, nmodels, nsteps):
+SLEEP_XML = """
+<mujoco><option timestep="0.005" sleep_tolerance="0.01"><flag sleep="enable" island="enable"/></option>
+ <worldbody>
+  <geom type="plane" size="5 5 .1"/>
+  <body name="a" pos="0 0 0.05"><freejoint/><geom type="box" size="0.1 0.1 0.05"/></body>
+  <body name="b" pos="0 0 0.15"><freejoint/><geom type="box" size="0.08 0.08 0.05"/></body>
+  <body name="c" pos="0.6 0.5 0.05"><freejoint/><geom type="box" size="0.05 0.05 0.05"/></body>
+  <body name="ball" pos="-0.8 0 0.06"><freejoint/><geom type="sphere" size="0.06"/></body>
+ </worldbody></mujoco>"""
+
+
+def sleep_states(m):
+  """Five states of the sleep scene: everything at rest (it all falls asleep after ~10 steps) except a
+  ball rolling towards the box tower at a different speed per state, so that the sleeping tower is woken
+  by collision at a different step in each world - and never in the first one."""
+  import mujoco
+
+  m2 = mujoco.MjModel.from_xml_string(SLEEP_XML.replace('sleep="enable"', 'sleep="disable"'))
+  d2 = mujoco.MjData(m2)
+  for _ in range(400):
+    mujoco.mj_step(m2, d2)
+  out = []
+  for v in (0.0, 2.5, 4.0, 3.2, 1.0):
+    dk = mujoco.MjData(m)
+    dk.qpos[:] = d2.qpos
+    dk.qvel[:] = 0
+    dk.qvel[18] = v
+    mujoco.mj_forward(m, dk)
+    out.append(dk)
+  return out
+
+
+def experiment(res, nmodels, nsteps_all):
   import mujoco
 
   import batchkit as BK
@@ -24,9 +56,13 @@ def experiment(res, nmodels, nsteps):
 
   rng = np.random.default_rng(vlib.seed() + 9)
   fails = []
-  for k in range(nmodels):
+  for k in range(nmodels + 1):
+    nsteps = nsteps_all
     if k == 0:
       xml = BK.RICH_XML
+    elif k == nmodels:
+      xml = SLEEP_XML  # sleeping enabled: two-pass collision with wake-up, gated per step
+      nsteps = 100
     else:
       o = models.Opts(nbody=(3, 6), plane=True, contacts=True, actuators=2, limits=0.5, equality=1, frictionloss=0.3, tendons=1 if k % 2 else 0)
       xml, _ = models.random_model(rng, o)
@@ -36,7 +72,7 @@ def experiment(res, nmodels, nsteps):
     if k % 4 == 3:
       m.opt.cone = mujoco.mjtCone.mjCONE_ELLIPTIC
     K = 3
-    ds = BK.random_states(rng, m, K)
+    ds = BK.random_states(rng, m, K) if k != nmodels else sleep_states(m)
     mm = mjw.put_model(m)
 
     def run(idx, n=None):
@@ -51,12 +87,13 @@ def experiment(res, nmodels, nsteps):
     short = min(nsteps, 2)
     full_short = run(list(range(K)), short)
 
-    ds = ds + BK.random_states(rng, m, 2)  # two more states used as "other content"
+    if k != nmodels:
+      ds = ds + BK.random_states(rng, m, 2)  # two more states used as "other content"
     full = run(list(range(K)))
     if int(full.overflow.numpy().max()) != 0:
       res.count()
       continue  # property is conditional on "no overflow reported"
-    perm_idx = [int(x) for x in rng.permutation(K)]
+    perm_idx = [int(x) for x in rng.permutation(K)] if k != nmodels else [1, 2, 0]
     perm = run(perm_idx)
     dup = run([1, 1, 0])
     other = run([0, 3, 4])  # world 0 next to entirely different neighbours
